@@ -43,6 +43,18 @@ CLAIMS = {
             'every index reachable; jackknife: exactly the leave-one-out vectors in order; shuffle / shuffle_two on '
             'length 1 (longer inputs: thorough tier, currently undecided by the solver); RNG = symbolic draws via the '
             'alea shim (U, small-integer conversion facts).', 'U/B', '§4 C19'),
+    'C13': ('acovf / acf against the biased-estimator definition, evenness, acf(0)=1, |acf|<=1 (small instances), '
+            'difference as inverse of cumulative sums, AR(1)/AR(2) Yule-Walker equations and intercept, multi-step forecasts '
+            '= intercept + recursion on the centred history (R).', 'R', '§4 C13'),
+    'C14': ('fit: normal equations for degree 0 (degree 1 thorough; goes through vandermonde, xtx, invert_matrix); '
+            'predict: Horner evaluation equals the polynomial for degrees 0-6; length mismatch panics (R).', 'R', '§4 C14'),
+    'C15': ('One inductive step of every structural operation from an arbitrary valid state against a row-major model '
+            'with opaque data (U), rejection of impossible shapes / indices (panic obligations), constructors (U/R), '
+            'linspace / arange grids, rotation matrices with sin^2+cos^2=1, predicates and the opposite-sign clause (R).',
+            'U/R', '§4 C15'),
+    'C20': ('Scalar kernels: symmetry, value at zero distance, positivity, monotone decrease, bound by the variance with '
+            'exp / pow uninterpreted + instantiated axioms; parameter validation; matrix forms equal the scalar form '
+            'entry by entry for point sets up to 2x2 (3x2 thorough) in all four argument forms (R).', 'R', '§4 C20'),
     'C16': ('Knot reproduction, in-segment line membership (division-free statement), Fill/Extrapolate/Panic behaviour on '
             'both sides of the range, checked-variant rejections, for 2..6 knots (R).', 'R', '§4 C16'),
     'C17': ('logistic range/monotonicity/reflection and logit inversion with exp/ln uninterpreted + instantiated axioms; '
